@@ -15,7 +15,7 @@ for name in names:
     if subprocess.run(["git", "-C", "/repo", "apply", os.path.join(d, "patch.diff")]).returncode != 0:
         print(name, "patch does not apply"); rc_all = 1; continue
     try:
-        p = subprocess.run(["timeout", "1500", os.path.join(VERIF, "vcheck"), pid, "--tier", "quick"], cwd=VERIF, stdout=subprocess.PIPE, stderr=subprocess.STDOUT)
+        p = subprocess.run(["timeout", "1500", os.path.join(VERIF, "vcheck"), pid, "--tier", "quick"], cwd=VERIF, stdout=subprocess.PIPE, stderr=subprocess.STDOUT, env=dict(os.environ, VERIF_NO_EVIDENCE="1"))
         out = p.stdout.decode("utf-8", "replace")
     finally:
         subprocess.run(["git", "-C", "/repo", "checkout", "--", "."])
